@@ -156,7 +156,7 @@ func (d *diskFlow) call(x *Exec, call *ast.CallExpr, lhs []ast.Expr, s St) ([]St
 		}
 		if !admitted && d.top == kGet {
 			// in get the item's size is the one the backend announced
-			if fs, ok := b.Term(x, identNamed(x, "foundSize"), s); ok {
+			if fs, ok := b.Term(x, roleIdent(x, "foundSize", "lhs:cache.(Proxy).Get:1", "lhs:cache.(Proxy).Contains:1"), s); ok {
 				v1, k1 := relLookup(s, "#0", "<", fs)
 				v2, k2 := relLookup(s, fs, "<", "#0")
 				admitted = k1 && !v1 && k2 && !v2
@@ -165,7 +165,7 @@ func (d *diskFlow) call(x *Exec, call *ast.CallExpr, lhs []ast.Expr, s St) ([]St
 		d.note(admitted, "R17f", site+":admitted", d.pos(call), "file creation is dominated by a successful Reserve of the item (or the item is empty)",
 			"path creates a file without a reservation (admission against max_size / max_size_hard_limit bypassed)", x.Trace())
 		if d.top == kGet {
-			fs, _ := b.Term(x, identNamed(x, "foundSize"), s)
+			fs, _ := b.Term(x, roleIdent(x, "foundSize", "lhs:cache.(Proxy).Get:1", "lhs:cache.(Proxy).Contains:1"), s)
 			d.note(relIs(s, "$recv.maxProxyBlobSize", "<", fs, false), "R12d", site+":maxproxy", d.pos(call), "file creation for a proxied entry is dominated by foundSize <= maxProxyBlobSize",
 				"path creates the file without the foundSize > c.maxProxyBlobSize rejection", x.Trace())
 			d.note(relIs(s, fs, "<", "#0", false), "R12d", site+":nonneg", d.pos(call), "file creation for a proxied entry is dominated by foundSize >= 0",
@@ -219,7 +219,7 @@ func (d *diskFlow) call(x *Exec, call *ast.CallExpr, lhs []ast.Expr, s St) ([]St
 			valid := s.Get("validated") == "header"
 			if !valid && s.Get("validated") == "length" {
 				// the comparison must leave exactly copied == foundSize on this path
-				fs, _ := b.Term(x, identNamed(x, "foundSize"), s)
+				fs, _ := b.Term(x, roleIdent(x, "foundSize", "lhs:cache.(Proxy).Get:1", "lhs:cache.(Proxy).Contains:1"), s)
 				valid = relIs(s, s.Get("copied"), "==", fs, true) || s.Get("validated-by") == "isSizeMismatch"
 			}
 			d.note(valid, "R12e", site+":validated", d.pos(call),
@@ -247,7 +247,7 @@ func (d *diskFlow) call(x *Exec, call *ast.CallExpr, lhs []ast.Expr, s St) ([]St
 	case "casblob.GetZstdReadCloser", "casblob.GetUncompressedReadCloser":
 		if d.top == kGet && x.Fn.Name == kGet {
 			// validates the header against expectedSize (3rd argument)
-			fs, _ := b.Term(x, identNamed(x, "foundSize"), s)
+			fs, _ := b.Term(x, roleIdent(x, "foundSize", "lhs:cache.(Proxy).Get:1", "lhs:cache.(Proxy).Contains:1"), s)
 			at, _ := b.Term(x, call.Args[2], s)
 			return b.ForkErr(x, lhs, 1, s, func(ok St) St {
 				if at == fs && fs != "" {
@@ -356,7 +356,7 @@ func (d *diskFlow) cond(x *Exec, cond ast.Expr, truth bool, s St) ([]St, bool) {
 			ct := s.Get("copied")
 			lt, ok1 := d.base.Term(x, be.X, s)
 			rt, ok2 := d.base.Term(x, be.Y, s)
-			fs, _ := d.base.Term(x, identNamed(x, "foundSize"), s)
+			fs, _ := d.base.Term(x, roleIdent(x, "foundSize", "lhs:cache.(Proxy).Get:1", "lhs:cache.(Proxy).Contains:1"), s)
 			if ok1 && ok2 && ct != "" && ((lt == ct && rt == fs) || (lt == fs && rt == ct)) {
 				// fallthrough to the generic refinement, but remember the comparison happened
 				outs := d.base.refineNoHook(x, cond, truth, s)
@@ -386,7 +386,7 @@ func (d *diskFlow) cond(x *Exec, cond ast.Expr, truth bool, s St) ([]St, bool) {
 		ct := s.Get("copied")
 		a0, _ := d.base.Term(x, call.Args[0], s)
 		a1, _ := d.base.Term(x, call.Args[1], s)
-		fs, _ := d.base.Term(x, identNamed(x, "foundSize"), s)
+		fs, _ := d.base.Term(x, roleIdent(x, "foundSize", "lhs:cache.(Proxy).Get:1", "lhs:cache.(Proxy).Contains:1"), s)
 		if ct != "" && ((a0 == ct && a1 == fs) || (a0 == fs && a1 == ct)) {
 			outs := d.base.refineNoHook(x, cond, truth, s)
 			for i := range outs {
@@ -516,4 +516,57 @@ func takeRules(c *Ctx, obs []*Oblig, rules ...string) {
 func relIs(s St, l, op, r string, want bool) bool {
 	v, known := relLookup(s, l, op, r)
 	return known && v == want
+}
+
+
+// roleIdent finds a variable of the current (outermost) function by its role
+// rather than by its name: "param:<i>" is the i-th parameter, "lhs:<callee>:<i>"
+// the i-th left-hand side of an assignment from a call of <callee>.  The name is
+// only the last resort (and what diagnostics print).
+func roleIdent(x *Exec, name string, roles ...string) ast.Expr {
+	fn := x.Fn
+	for fn.Outer != nil {
+		fn = fn.Outer
+	}
+	for _, role := range roles {
+		parts := strings.Split(role, ":")
+		switch parts[0] {
+		case "param":
+			want := 0
+			fmt.Sscan(parts[1], &want)
+			i := 0
+			if fn.Type.Params != nil {
+				for _, f := range fn.Type.Params.List {
+					for _, n := range f.Names {
+						if i == want {
+							return n
+						}
+						i++
+					}
+				}
+			}
+		case "lhs":
+			idx := 0
+			fmt.Sscan(parts[len(parts)-1], &idx)
+			callee := strings.Join(parts[1:len(parts)-1], ":")
+			var found ast.Expr
+			ast.Inspect(fn.Body, func(n ast.Node) bool {
+				if found != nil {
+					return false
+				}
+				if as, ok := n.(*ast.AssignStmt); ok && len(as.Rhs) == 1 && idx < len(as.Lhs) {
+					if call, ok := ast.Unparen(as.Rhs[0]).(*ast.CallExpr); ok && calleeKey(fn.Info, call) == callee {
+						if id, ok := as.Lhs[idx].(*ast.Ident); ok && id.Name != "_" {
+							found = id
+						}
+					}
+				}
+				return true
+			})
+			if found != nil {
+				return found
+			}
+		}
+	}
+	return identNamed(x, name)
 }
